@@ -3,7 +3,7 @@
 # Runs the check against a seeded change in a scratch copy (worktree of /repo + copy of /verif whose
 # harness crate points at that worktree), so that several seeds can be examined in parallel and /repo
 # stays untouched. Result: /verif/seeded/<id>/result.json (mode says "scratch worktree").
-sid=$1; prop=$2; only=$3
+sid=$1; prop=$2; only=$3; tier=${4:-quick}
 base=/tmp/st/$sid
 rm -rf $base; mkdir -p $base
 git -C /repo worktree add --detach -q $base/repo HEAD || exit 3
@@ -18,7 +18,7 @@ t0=$(date +%s)
 if [ "$only" = "FULL" ]; then
   VERIF_WORK=$base/work ./check $prop --tier quick --jobs 4 > $base/out.txt 2>&1
 else
-  VERIF_WORK=$base/work ./check $prop --tier quick --only $only --jobs 4 > $base/out.txt 2>&1
+  VERIF_WORK=$base/work ./check $prop --tier $tier --only $only --jobs 4 > $base/out.txt 2>&1
 fi
 rc=$?
 t1=$(date +%s)
